@@ -81,7 +81,7 @@ func c15Subj(c *mon.Ctx, i int) (c15Subject, bool) {
 	}
 	if i%8 == 5 {
 		// keys that order differently as numbers and as spellings, next to keys that are not numbers
-		prof = prof.With(func(p *gen.Profile) { p.Keys = []string{"9", "10", "2b", "1", "100", "a", "-1", "01"}; p.PArr = 0.2; p.MaxFan = 6 })
+		prof = prof.With(func(p *gen.Profile) { p.Keys = []string{"9", "10", "2b", "1", "100", "a", "-1", "01", "1e+06", "1e3", "0x10"}; p.PArr = 0.2; p.MaxFan = 6 })
 	}
 	a, b := PairFor(r, o, prof)
 	if len(o.Keys) > 0 && (i/len(AllDiffOpts))%2 == 1 {
